@@ -85,10 +85,12 @@ def render_call(shape, tagbase):
         args.append("*T(%d, [%s])" % (t, ", ".join(f"'S{i}'" for i in range(star))))
     for k in kws:
         t += 1
-        args.append(f"{k}=T({t}, 'K{k}')")
+        # every third keyword value is an explicit None / falsy value (must not be mistaken for "not passed")
+        val = ["'K%s'" % k, "None", "0"][t % 3] if (t // 3) % 2 else "'K%s'" % k
+        args.append(f"{k}=T({t}, {val})")
     if dstar is not None:
         t += 1
-        args.append("**T(%d, {%s})" % (t, ", ".join(f"'{k}': 'X{k}'" for k in dstar)))
+        args.append("**T(%d, {%s})" % (t, ", ".join((f"'{k}': None" if (t + i) % 3 == 0 else f"'{k}': 'X{k}'") for i, k in enumerate(dstar))))
     return f"r = f({', '.join(args)})\n"
 
 
@@ -146,7 +148,7 @@ class ScopeGen:
                 body.append(f"{ip}{v} += T({self.tag()}, 1)")
                 bound_here.add(v)
             elif k < 0.75 and depth > 0:
-                sub, subname = self.func(depth - 1, ind + 1, enclosing_bound | bound_here | {x for x in NAMES if r.random() < 0.3})
+                sub, subname = self.func(depth - 1, ind + 1, enclosing_bound | bound_here | {x for x in NAMES if r.random() < 0.3} | ({"acc"} if r.random() < 0.5 else set()))
                 body.extend(sub)
                 nargs = sub[0].count(",") + (0 if "()" in sub[0] else 1)
                 call = f"{subname}({', '.join(str(r.randint(0, 9)) for _ in range(nargs))})"
@@ -179,6 +181,27 @@ class ScopeGen:
                 else:
                     self.features.add("comprehension_target_is_function_local")
                     body.append(f"{ip}T({self.tag()}, [{v} for {v} in range(2)])")
+        # a list variable that nested functions may mention only through an attribute (acc.append): it must still be
+        # found in the enclosing function (or the globals)
+        if r.random() < 0.6:
+            mode = r.choice(["bind", "attr", "attr", "bind+attr", "bare"])
+            extra = []
+            if "bind" in mode:
+                extra.append([f"{ip}acc = [T({self.tag()}, 'acc_{name}')]"])
+            if "attr" in mode or mode == "bare":
+                for _ in range(r.choice([1, 2])):
+                    use = f"acc.append(T({self.tag()}, {r.randint(0, 9)}))" if mode != "bare" else f"T({self.tag()}, list(acc))"
+                    extra.append([f"{ip}try:", f"{ip}    {use}", f"{ip}except NameError:", f"{ip}    T({self.tag()}, 'NEacc')"])
+            if mode == "bind":
+                extra.append([f"{ip}T({self.tag()}, list(acc))"])
+            # statements go to random positions between the top-level statements of the body (never inside a nested block)
+            tops = [i for i, l in enumerate(body) if l.startswith(ip) and not l.startswith(ip + " ") and not l.lstrip().startswith(("except", "else", "finally"))]
+            for chunk in extra:
+                pos = r.choice(tops + [len(body)]) if tops else len(body)
+                body[pos:pos] = chunk
+                tops = [i for i, l in enumerate(body) if l.startswith(ip) and not l.startswith(ip + " ") and not l.lstrip().startswith(("except", "else", "finally"))]
+            if "bind" in mode and r.random() < 0.15 and "acc" in enclosing_bound and depth_ok(ind):
+                decl_lines.append(f"{ip}nonlocal acc")
         body.append(f"{ip}return T({self.tag()}, 'ret_{name}')")
         return lines + decl_lines + body, name
 
@@ -188,6 +211,8 @@ class ScopeGen:
         for v in NAMES:
             if r.random() < 0.6:
                 lines.append(f"{v} = T({self.tag()}, '{v}g')")
+        if r.random() < 0.6:
+            lines.append(f"acc = [T({self.tag()}, 'accg')]")
         for _ in range(r.choice([1, 1, 2])):
             sub, name = self.func(r.choice([1, 2, 3]), 0, set())
             lines.extend(sub)
